@@ -190,6 +190,17 @@ class Exec(common.BaseExec):
             self.committed = self._copy(self.held)
             if not grew:
                 self.last_var = None
+            if not (self.kind == "corr" and len(self.committed[0]) == 0) and not (self.matrix_noise and self.n_committed() == 0):
+                try:
+                    _, pc = self.model.predict(self.probe)
+                    v = np.diagonal(np.asarray(pc, float), axis1=-2, axis2=-1).copy()
+                except Exception:
+                    v = None
+                if v is not None and self.last_var is not None and v.shape == self.last_var.shape:
+                    REC.judged["variance-monotone"] += 1
+                    if np.any(v > self.last_var + 1e-8 * max(1.0, float(np.max(self.last_var)))):
+                        self.fail("variance-grew-with-more-data", {"before": self.last_var.tolist(), "after": v.tolist()})
+                self.last_var = v
         elif name == "clear":
             self.model.clear_data()
             self.held = self.empty()
